@@ -20,6 +20,22 @@ Histories. One Harness may span several pricings made one after the other on the
 the generator state left by one pricing is the state the next one starts from: `Harness.mark()` returns the id of the next sample,
 so that the samples of one pricing are those with mark_before <= id < mark_after.
 
+Generator OBJECTS. numpy.random.normal & co. are bound methods of ONE object (numpy's global RandomState), random.seed /
+random.getrandbits of `random._inst`: a library object that keeps one of these functions (or the generator itself) in an
+attribute carries the generator with it - copy.deepcopy and pickle / dill of the holder make a CLONE of the generator with the
+state of that moment (what the pool does for every chunk), which then ignores every later seeding of the global generator. The
+traced functions are therefore bound methods of `TracedGen` objects: the global ones keep their state in the Ctx of the running
+simulated process; a copy (`__reduce__`, used by copy, deepcopy, pickle and dill alike) is a DETACHED generator carrying (stream,
+position) of the moment of copying, and reports its draws to the harness of the run like any other draw, so that two chunk copies
+replaying the same positions are seen as a sharing ("detached" tags name the mechanism). `numpy.random.default_rng(s)` returns a
+detached generator of its own stream as well. random.getrandbits is a builtin of the real module: atomic under deepcopy, cloned
+under pickle (`_PyBuiltin`).
+
+Path content. Every simulated path returned by the wrapped simulate_one_path* is measured: number of non-zero Brownian increments
+and of non-zero jump increments (`content` of the sample), and the number of variates recorded per kind (`kinds`): a path with
+random content that no recorded variate backs was drawn from a source the tracing generator does not see (a generator object
+captured before the harness was installed, a private RandomState / Generator ...) - oracle in the check module.
+
 Untraced draws. `Installed` snapshots the state of the REAL numpy / `random` global generators on entry and compares on exit: a
 difference means the library drew from a function the tracing generator does not replace (Harness.untraced is set and the check
 raises - never a silent pass).
@@ -28,6 +44,7 @@ from __future__ import annotations
 
 import hashlib
 import math
+import operator
 import struct
 from collections import deque
 
@@ -65,6 +82,177 @@ class Ctx:
         self.pystream, self.pypos = pystream if pystream is not None else stream, pypos
 
 
+class TracedGen:
+    """One generator OBJECT of the tracing generator (see the module docstring). `own` is None for the two global generators (state
+    in the Ctx of the running simulated process) and {"stream", "pos", "origin"} for a detached one (a copy, or default_rng)."""
+
+    def __init__(self, kind, own=None):
+        self.kind = kind  # "np" | "py" | "rng"
+        self.own = own
+        if kind == "py":
+            self.getrandbits = _PyBuiltin(self, "getrandbits")
+
+    # -- copies: copy.copy / copy.deepcopy / pickle / dill all come here, as for numpy's RandomState and random.Random
+    def _state(self):
+        if self.own is not None:
+            return self.own["stream"], self.own["pos"]
+        c = H.ctx if H is not None else None
+        if c is None:
+            return ("no-harness", self.kind), 0
+        return (c.pystream, c.pypos) if self.kind == "py" else (c.stream, c.pos)
+
+    def __reduce__(self):
+        stream, pos = self._state()
+        origin = self.own["origin"] if self.own is not None else f"copy-of-the-global-{'numpy' if self.kind == 'np' else 'random'}-generator"
+        return _detached, (self.kind, stream, pos, origin)
+
+    # -- draws
+    def _take(self, n, kind):
+        h = H
+        if self.own is None:
+            c = h.ctx
+            if self.kind == "py":
+                stream, start = c.pystream, c.pypos
+                c.pypos += n
+            else:
+                stream, start = c.stream, c.pos
+                c.pos += n
+            origin = None
+        else:
+            stream, start = self.own["stream"], self.own["pos"]
+            self.own["pos"] += n
+            origin = self.own["origin"]
+        tags = [(stream, start + i) for i in range(n)]
+        h.record(tags, kind, origin)
+        return tags
+
+    def uniform(self, low=0.0, high=1.0, size=None):
+        n = 1 if size is None else int(np.prod(size))
+        vals = np.array([_u(*t) for t in self._take(n, "uniform")], dtype=float) * (high - low) + low
+        return float(vals[0]) if size is None else vals.reshape(size)
+
+    def random_sample(self, size=None):
+        return self.uniform(0.0, 1.0, size)
+
+    def random(self, size=None):
+        return self.uniform(0.0, 1.0, size)
+
+    def normal(self, loc=0.0, scale=1.0, size=None):
+        n = 1 if size is None else int(np.prod(size))
+        vals = np.array([_normal(_u(*t)) for t in self._take(n, "normal")], dtype=float) * scale + loc
+        return float(vals[0]) if size is None else vals.reshape(size)
+
+    def standard_normal(self, size=None):
+        return self.normal(0.0, 1.0, size)
+
+    def poisson(self, lam=1.0, size=None):
+        n = 1 if size is None else int(np.prod(size))
+        vals = np.array([_poisson(lam, _u(*t)) for t in self._take(n, "poisson")], dtype=int)
+        return int(vals[0]) if size is None else vals.reshape(size)
+
+    def choice(self, a, *args, **kw):
+        a = list(a)
+        t = self._take(1, "choice")[0]
+        return a[min(int(_u(*t) * len(a)), len(a) - 1)]
+
+    def _getrandbits(self, k):
+        t = self._take(1, "getrandbits")[0]
+        return int(_u(*t) * (1 << k))
+
+    def seed(self, s=None):
+        h = H
+        try:  # numpy / random seed with the VALUE of an integer: 7, numpy.int64(7) and True-as-1 name the same stream
+            s = operator.index(s) if s is not None else None
+        except TypeError:
+            pass
+        name = "random.seed" if self.kind == "py" else "np.seed"
+        if self.own is not None:  # a detached copy re-seeds ITSELF: the global generator of the process is not touched
+            h.events.append((name + ":detached", h.ctx.name, s, h.n_samples))
+            self.own["stream"], self.own["pos"] = (self.kind, s), 0
+            return
+        h.events.append((name, h.ctx.name, s, h.n_samples))
+        if self.kind == "py":
+            h.ctx.pystream, h.ctx.pypos = ("py", s), 0
+        else:
+            h.ctx.stream, h.ctx.pos = ("np", s), 0
+
+
+def default_rng(s=None):
+    """numpy.random.default_rng: a generator OBJECT of its own stream (seeded: the stream of that seed, the same in every process
+    that asks for it; unseeded: operating-system entropy, a new stream at every call)"""
+    if s is None:
+        H.entropy += 1
+        stream = ("rng-entropy", H.entropy)
+    else:
+        stream = ("rng", s)
+    return TracedGen("rng", own={"stream": stream, "pos": 0, "origin": "default_rng"})
+
+
+def random_state(s=None):
+    """numpy.random.RandomState(seed): a generator object; seeded, it produces the stream numpy.random.seed(seed) produces"""
+    if s is None:
+        H.entropy += 1
+        stream = ("rng-entropy", H.entropy)
+    else:
+        try:
+            s = operator.index(s)
+        except TypeError:
+            pass
+        stream = ("np", s)
+    return TracedGen("np", own={"stream": stream, "pos": 0, "origin": "RandomState"})
+
+
+_NAMES_CACHE = {}
+
+
+def _import_time_names(replaced):
+    """(module or class, name) of the loaded rpylib modules bound to one of the replaced functions at import time; cached per
+    number of loaded modules"""
+    import sys
+
+    mods = [m for k, m in sorted(sys.modules.items()) if (k == "rpylib" or k.startswith("rpylib.")) and m is not None]
+    key = len(mods)
+    if key not in _NAMES_CACHE:
+        found = []
+
+        def is_real(val):
+            val = val.__func__ if isinstance(val, staticmethod) else val
+            return id(val) in replaced and replaced[id(val)][0] is val
+
+        for m in mods:
+            for name, val in list(vars(m).items()):
+                if is_real(val):
+                    found.append((m, name))
+                elif isinstance(val, type) and getattr(val, "__module__", None) == m.__name__:
+                    found.extend((val, n) for n, v in list(vars(val).items()) if is_real(v))
+        _NAMES_CACHE[key] = found
+    return _NAMES_CACHE[key]
+
+
+def _detached(kind, stream, pos, origin):
+    return TracedGen(kind, own={"stream": stream, "pos": pos, "origin": origin})
+
+
+class _PyBuiltin:
+    """random.getrandbits is a builtin method of random._inst: copy / deepcopy return the very same object, pickle / dill rebuild it
+    on a copy of the instance"""
+
+    def __init__(self, gen, name):
+        self.gen, self.name = gen, name
+
+    def __call__(self, *a, **kw):
+        return getattr(self.gen, "_" + self.name)(*a, **kw)
+
+    def __copy__(self):
+        return self
+
+    def __deepcopy__(self, memo):
+        return self
+
+    def __reduce__(self):
+        return getattr, (self.gen, self.name)
+
+
 class Harness:
     """Owns every source of nondeterminism of one engine run."""
 
@@ -87,63 +275,47 @@ class Harness:
         self.events = []  # (kind, ctx name, detail)
         self.phase = {"level": None, "pass": 0}
         self.pools = 0
+        self.entropy = 0
+        self.gen_np = TracedGen("np")  # numpy's global RandomState / the `random` module's instance, as seen from every
+        self.gen_py = TracedGen("py")  # simulated process (the state lives in the Ctx of the process that is running)
+        self.last_tags = []
 
-    # ---------------------------------------------------------------- draws
-    def _take(self, n, kind):
-        c = self.ctx
-        start = c.pos
-        c.pos += n
-        tags = [(c.stream, start + i) for i in range(n)]
+    # ---------------------------------------------------------------- draws (made by the TracedGen objects)
+    def record(self, tags, kind, detached=None):
+        n = len(tags)
         if self.sample is not None:
-            self.samples[self.sample]["tags"].update(tags)
+            s = self.samples[self.sample]
+            s["tags"].update(tags)
+            s["kinds"][kind] = s["kinds"].get(kind, 0) + n
+            if detached is not None:
+                s.setdefault("detached", {}).update((t, detached) for t in tags)
         elif not self.in_pre:
             self.unattributed += n
         self.last_tags = tags
-        return tags
 
     def uniform(self, low=0.0, high=1.0, size=None):
-        n = 1 if size is None else int(np.prod(size))
-        vals = np.array([_u(*t) for t in self._take(n, "uniform")], dtype=float) * (high - low) + low
-        return float(vals[0]) if size is None else vals.reshape(size)
+        return self.gen_np.uniform(low, high, size)
 
     def random_sample(self, size=None):
-        return self.uniform(0.0, 1.0, size)
+        return self.gen_np.random_sample(size)
 
     def normal(self, loc=0.0, scale=1.0, size=None):
-        n = 1 if size is None else int(np.prod(size))
-        vals = np.array([_normal(_u(*t)) for t in self._take(n, "normal")], dtype=float) * scale + loc
-        return float(vals[0]) if size is None else vals.reshape(size)
+        return self.gen_np.normal(loc, scale, size)
 
     def poisson(self, lam=1.0, size=None):
-        n = 1 if size is None else int(np.prod(size))
-        vals = np.array([_poisson(lam, _u(*t)) for t in self._take(n, "poisson")], dtype=int)
-        return int(vals[0]) if size is None else vals.reshape(size)
+        return self.gen_np.poisson(lam, size)
 
     def choice(self, a, *args, **kw):
-        a = list(a)
-        t = self._take(1, "choice")[0]
-        return a[min(int(_u(*t) * len(a)), len(a) - 1)]
+        return self.gen_np.choice(a, *args, **kw)
 
     def np_seed(self, s=None):
-        self.events.append(("np.seed", self.ctx.name, s, self.n_samples))
-        self.ctx.stream, self.ctx.pos = ("np", s), 0
+        return self.gen_np.seed(s)
 
     def py_seed(self, s=None):
-        self.events.append(("random.seed", self.ctx.name, s, self.n_samples))
-        self.ctx.pystream, self.ctx.pypos = ("py", s), 0
+        return self.gen_py.seed(s)
 
     def getrandbits(self, k):
-        c = self.ctx
-        t = (c.pystream, c.pypos)
-        c.pypos += 1
-        if self.sample is not None:
-            self.samples[self.sample]["tags"].add(t)
-        elif not self.in_pre:
-            self.unattributed += 1
-        return int(_u(*t) * (1 << k))
-
-    def default_rng(self, s=None):
-        return None
+        return self.gen_py.getrandbits(k)
 
     # ---------------------------------------------------------------- environment
     def getpid(self):
@@ -163,7 +335,7 @@ class Harness:
     def begin_sample(self, info):
         sid = self.n_samples
         self.n_samples += 1
-        self.samples[sid] = {"tags": set(), "ctx": self.ctx.name, "pid": self.ctx.pid, "level": self.phase["level"],
+        self.samples[sid] = {"tags": set(), "kinds": {}, "ctx": self.ctx.name, "pid": self.ctx.pid, "level": self.phase["level"],
                              "pass": self.phase["pass"], "info": info}
         self.sample = sid
         return sid
@@ -249,6 +421,18 @@ class FakeMP:
 # installation
 # ----------------------------------------------------------------------------------------------------------------------
 
+def path_content(path):
+    """(number of non-zero Brownian increments, number of non-zero jump increments) of a simulated path - the larger of the two
+    components of a coupled path; None when the object is not a path with a diffusion and a jump component"""
+    try:
+        d = np.atleast_2d(np.asarray(path.diffusion_path, dtype=float))
+        j = np.atleast_2d(np.asarray(path.jump_path, dtype=float))
+        return (int(np.max(np.count_nonzero(np.diff(d, axis=-1), axis=-1))) if d.shape[-1] > 1 else 0,
+                int(np.max(np.count_nonzero(np.diff(j, axis=-1), axis=-1))) if j.shape[-1] > 1 else 0)
+    except Exception:  # noqa: BLE001 - another kind of path: nothing is asserted about it
+        return None
+
+
 class Installed:
     """Context manager: patches numpy.random, random, the configuration module's os/time, the engines' pool, and wraps the
     simulators at class level so that samples and pre-drawn rows are attributed."""
@@ -276,12 +460,24 @@ class Installed:
         h = self.h
         H = h
         self._real_state = (_freeze(npr.get_state()), pyrandom.getstate())
-        for name in ("uniform", "random_sample", "normal", "poisson", "choice", "default_rng"):
-            self._set(npr, name, getattr(h, name))
-        self._set(npr, "random", h.random_sample)
-        self._set(npr, "seed", h.np_seed)
-        self._set(pyrandom, "seed", h.py_seed)
-        self._set(pyrandom, "getrandbits", h.getrandbits)
+        # the module-level functions are bound methods of the two global generator objects, as in numpy / random
+        for name in ("uniform", "random_sample", "random", "normal", "standard_normal", "poisson", "choice", "seed"):
+            self._set(npr, name, getattr(h.gen_np, name))
+        self._set(npr, "default_rng", default_rng)
+        self._set(npr, "RandomState", random_state)
+        self._set(pyrandom, "seed", h.gen_py.seed)
+        self._set(pyrandom, "getrandbits", h.gen_py.getrandbits)
+        # names bound to the replaced functions when the library modules were imported (`from numpy.random import normal`):
+        # the very same global generator under another name - they follow the replacement
+        replaced = {id(real): (real, getattr(obj, name)) for obj, name, real in self.saved}
+        for holder, name in _import_time_names(replaced):  # module globals and class attributes (plain or staticmethod)
+            val = vars(holder)[name]
+            if isinstance(val, staticmethod):
+                self.saved.append((holder, name, val))
+                setattr(holder, name, staticmethod(replaced[id(val.__func__)][1]))
+            else:
+                self.saved.append((holder, name, val))
+                setattr(holder, name, replaced[id(val)][1])
 
         class _OS:
             getpid = staticmethod(h.getpid)
@@ -325,6 +521,7 @@ class Installed:
                     rows = [set() for _ in range(mc_paths)]
                     H.events.append(("pre-computation-draw-pattern-unknown", c.name, p1 - p0, mc_paths))
             sim._verif_rows = deque(rows)
+            sim._verif_row_normals = dim * nb
 
         self._set(LP.SimulationFixedTimes, "pre_computation", pre_computation)
 
@@ -338,7 +535,10 @@ class Installed:
                 outer = hh.sample
                 sid = hh.begin_sample(label) if outer is None else outer
                 try:
-                    return orig(self_, *a, **kw)
+                    res = orig(self_, *a, **kw)
+                    if outer is None:
+                        hh.samples[sid]["content"] = path_content(res)
+                    return res
                 finally:
                     rows = getattr(sim, "_verif_rows", None)
                     if rows is not None and q is not None:
@@ -348,6 +548,10 @@ class Installed:
                                 row = rows.popleft()
                                 hh.samples[sid]["tags"].update(row)
                                 hh.samples[sid].setdefault("row_tags", set()).update(row)
+                                kinds = hh.samples[sid]["kinds"]  # a row = one jump count per interval + the Brownian increments
+                                nn = getattr(sim, "_verif_row_normals", 0)
+                                kinds["normal"] = kinds.get("normal", 0) + min(nn, len(row))
+                                kinds["poisson"] = kinds.get("poisson", 0) + max(len(row) - nn, 0)
                         hh.samples[sid]["popped"] = popped
                     if outer is None:
                         hh.end_sample()
